@@ -159,6 +159,7 @@ type pSet struct {
 	lg                scale.Log
 	marks             *graphalg.NodeMarks
 	idom              []int
+	invT, invT2       func(float64) float64 // long-lived quantile functions, shared by all goroutines
 	objs              map[string]func() string
 }
 
@@ -238,6 +239,8 @@ func mkSet(rng *rand.Rand) *pSet {
 		p.lhist.Add(v)
 	}
 	p.kde = stats.KDE{Sample: stats.Sample{Xs: tied(n, 6, 0)}, Kernel: stats.GaussianKernel, Bandwidth: 0.75, BoundaryMin: -1, BoundaryMax: 9}
+	p.invT = stats.InvCDF(stats.TDist{V: 5})
+	p.invT2 = stats.InvCDF(stats.TDist{V: 2.5 + float64(rng.Intn(9))})
 	p.kde0 = stats.KDE{Sample: stats.Sample{Xs: tied(n, 6, 0)}, Kernel: stats.EpanechnikovKernel}
 	p.lin = scale.Linear{Min: -3.5, Max: 17.25}
 	p.lg, _ = scale.NewLog(0.3, 4500, 10)
@@ -356,6 +359,25 @@ func purityEntries() []pEntry {
 		{"NormalDist.InvCDF", nil, "", false, func(p *pSet) any { return stats.NormalDist{Mu: 1, Sigma: 2}.InvCDF(0.975) }},
 		{"TDist.CDF", nil, "", false, func(p *pSet) any { return stats.TDist{V: 7.5}.CDF(1.3) }},
 		{"stats.InvCDF", nil, "", false, func(p *pSet) any { return stats.InvCDF(stats.TDist{V: 5})(0.9) }},
+		// one quantile function queried at many levels in whatever order the history dictates: every level must give the
+		// same bits each time (no warm start from the previous root, no cache keyed by the previous level)
+		{"InvCDF.shared(0.9)", nil, "", false, func(p *pSet) any { return p.invT(0.9) }},
+		{"InvCDF.shared(0.05)", nil, "", false, func(p *pSet) any { return p.invT(0.05) }},
+		{"InvCDF.shared(0.31)", nil, "", false, func(p *pSet) any { return p.invT(0.31) }},
+		{"InvCDF.shared(0.5)", nil, "", false, func(p *pSet) any { return p.invT(0.5) }},
+		{"InvCDF.shared(0.62)", nil, "", false, func(p *pSet) any { return p.invT(0.62) }},
+		{"InvCDF.shared(0.975)", nil, "", false, func(p *pSet) any { return p.invT(0.975) }},
+		{"InvCDF.shared(0.999)", nil, "", false, func(p *pSet) any { return p.invT(0.999) }},
+		{"InvCDF.shared(1e-4)", nil, "", false, func(p *pSet) any { return p.invT(1e-4) }},
+		{"InvCDF.shared2(sweep)", nil, "", false, func(p *pSet) any {
+			out := make([]float64, 0, 12)
+			for _, y := range []float64{0.7, 0.2, 0.83, 0.45, 0.7, 0.01, 0.99, 0.2, 0.55, 0.83, 0.123, 0.877} {
+				out = append(out, p.invT2(y))
+			}
+			return out
+		}},
+		{"InvCDF.shared2(0.7)", nil, "", false, func(p *pSet) any { return p.invT2(0.7) }},
+		{"InvCDF.shared2(0.123)", nil, "", false, func(p *pSet) any { return p.invT2(0.123) }},
 		{"stats.HistogramQuantile", []string{"lhist"}, "", false, func(p *pSet) any { return stats.HistogramQuantile(p.lhist, 0.5) }},
 		{"stats.HistogramIQR", []string{"lhist"}, "", false, func(p *pSet) any { return stats.HistogramIQR(p.lhist) }},
 		{"LinearHist.Counts", []string{"lhist"}, "", false, func(p *pSet) any { u, b, o := p.lhist.Counts(); return []any{u, append([]uint{}, b...), o} }},
